@@ -2,6 +2,7 @@
 From Coq Require Import ZArith List Bool Lia.
 From Verif Require Import PyBase MarshalModel Utf8Model CqlType CqlCodec CassandraSpecInt CassandraSpec
   Marshal_proofs Vint_proofs Utf8_proofs.
+From Verif Require VIntCoding MarshalBridge.
 Import ListNotations.
 Local Open Scope Z_scope.
 
@@ -114,7 +115,7 @@ Proof.
   - (* smallint *) upi H. split; [reflexivity | intros _; eapply pack_nonempty; [|eauto]; lia].
   - (* tinyint *) upi H. split; [reflexivity | intros _; eapply pack_nonempty; [|eauto]; lia].
   - (* text *) rewrite (utf8_decode_encode _ _ H). split; [reflexivity | discriminate].
-  - (* time *) destruct (z <? DAY_NANOS) eqn:D; [|discriminate].
+  - (* time *) destruct ((0 <=? z) && (z <? DAY_NANOS)) eqn:D; [|discriminate].
     upi H. cbn [obind]. rewrite D.
     split; [reflexivity | intros _; eapply pack_nonempty; [|eauto]; lia].
   - (* timestamp *) upi H. cbn [obind].
@@ -122,8 +123,16 @@ Proof.
   - (* uuid *) destruct (length bs0 =? 16)%nat eqn:L; [|discriminate]. inversion H; subst. rewrite L.
     split; [reflexivity|]. intros _ C. subst. cbn in L. discriminate.
   - (* varint *) inversion H; subst. rewrite varint_unpack_pack. split; [reflexivity | intros _; apply varint_pack_nonempty].
-  - (* duration *) cbn [py_repr] in Hp. apply andb_true_iff in Hp. destruct Hp as [Hp H3]. apply andb_true_iff in Hp. destruct Hp as [H1 H2].
-    apply in_z_iff in H1. apply in_z_iff in H2. apply in_z_iff in H3.
+  - (* duration *)
+    (* the encoder itself refuses components outside int64: model = VIntCoding (MarshalBridge, proved over the translated source) *)
+    pose proof H as Hv. rewrite MarshalBridge.model_vints_pack_spec in Hv. cbn [VIntCoding.vints_encode] in Hv.
+    destruct (VIntCoding.in_int64b months) eqn:H1; [|discriminate].
+    destruct (VIntCoding.in_int64b days) eqn:H2; [|discriminate].
+    destruct (VIntCoding.in_int64b nanos) eqn:H3; [|discriminate]. clear Hv.
+    unfold VIntCoding.in_int64b in H1, H2, H3.
+    apply andb_true_iff in H1. apply andb_true_iff in H2. apply andb_true_iff in H3.
+    destruct H1 as [A1 B1]. destruct H2 as [A2 B2]. destruct H3 as [A3 B3].
+    apply Z.leb_le in A1, A2, A3. apply Z.ltb_lt in B1, B2, B3.
     assert (F : Forall int64 [months; days; nanos]) by (repeat constructor; unfold int64; lia).
     rewrite (vints_unpack_pack _ _ F H).
     split; [reflexivity | intros _; eapply vints_pack_nonempty; eauto].
